@@ -52,12 +52,29 @@ def main_for(prop, argv=None, level="other"):
         res3 = world.run_functions(ck, ["buffers"], bufs, timeout=20)
         from vlib.modelreplay import make_replayer
         world.report(ck, res3, replayer=make_replayer(ck, ["buffers"]))
-        ck.trusted.append("file model (content, pos) of contracts/buffers.py for BytesIO / TemporaryFile (assumed; exercised by C17's bounded stand-in)")
+        # the same bounded stand-in as C17: the assumed file model and the migrations, on the real classes (decides natively whether a refuted
+        # proof-internal obligation of the buffer bodies is a broken proof or a broken queue)
+        k = 2 if ck.tier == "quick" else 3
+        payload = {"k": k, "overflows": [0, 1, 8191, 8192, 8193, 20000], "seed": ck.seed, "random": 200 if ck.tier == "quick" else 2000}
+        rep = ck.native("histories", payload, timeout=3000, module="C17")
+        ck.bounded.append({"label": "bounded", "what": "real OverflowableBuffer over real BytesIO/TemporaryFile vs a bytearray queue",
+                           "bound": "all operation histories of length <= %d over 17 operations x 6 overflow thresholds, plus %d seeded random histories" % (k, payload["random"]),
+                           "evaluations": rep.get("total", 0), "failures": rep.get("failures", rep)})
+        if rep.get("failures"):
+            f = rep["failures"][0]
+            ck.fail("buffers.OverflowableBuffer/bounded:fifo-histories", "history:" + repr(f)[:80], "bounded stand-in: real buffer deviates from a FIFO byte queue: %s" % f["problem"],
+                    replay={"history": f, "label": "bounded"}, reproduced=True)
+        ck.trusted.append("file model (content, pos) of contracts/buffers.py for BytesIO / TemporaryFile (assumed; exercised by the bounded stand-in)")
     if prop == "C04" and ck.tier == "thorough":
         # the two facts the channel world only ASSUMES (backlog counter non-negative, a pending request is never completed) and the monitor
         # invariants, judged on the executions of the repository's tests
         from vlib.runtime import run_monitor
         run_monitor(ck, ("channel.",))
+    if prop == "C19":
+        # "never for HTTP/1.0": the flag the channel acts on is set by parse_header, only for a 1.1 request that asks for it
+        resp = world.run_functions(ck, ["adj", "buffers_abs", "receiver", "parser"], ["parser.HTTPRequestParser.parse_header"],
+                                   timeout=20 if ck.tier == "quick" else 60, hooks_mod="contracts.parser")
+        world.report(ck, resp, select=lambda n: "expect-continue-only-on-1.1" in n or "coverage:" in n)
     if prop == "C13":
         # listener safety: socket errors on accept / option calls / channel set-up never escape handle_accept nor stop the listener
         res2 = world.run_functions(ck, ["server"], ["server.BaseWSGIServer.handle_accept"], timeout=20, hooks_mod="contracts.server")
